@@ -926,7 +926,7 @@ func c18Run(t *testing.T, r *sim.Run, tier string) {
 
 var c18Engine = &sim.Engine{
 	Prop: "C18", Level: "exploration",
-	Rule: "one run = a generated set of results (1-3 units, 1-2 tables, 1-4 benchmarks, 1-4 series points, 1-4 experiments per point, shared baselines, mirrored cells, time stamps in both accepted formats) added to fresh benchseries.Builders in 2-5 drawn orders (through a real benchfmt.Reader or AddFiles over temp files split at drawn points), with the iteration order of every hash map in benchseries drawn from the tape, under one duplicate policy; the canonicalised AllComparisonSeries output must equal a reference model computed from the set and be identical across orders; bootstrap summaries must be ordered, within the attainable ratio range and reproducible; all spellings of every instant must normalise identically and sort chronologically; " +
+	Rule: "one run = a generated set of results (1-3 units, 1-2 tables, 1-4 benchmarks, 1-4 series points, 1-4 experiments per point, shared baselines, mirrored cells, time stamps in both accepted formats, whole seconds or fractions, experiments within one second of each other; zero-valued and baseline-only cells; one of six filter expressions) added to fresh benchseries.Builders in 2-5 drawn orders (through a real benchfmt.Reader or AddFiles over temp files split at drawn points), with the iteration order of every hash map in benchseries drawn from the tape, under one duplicate policy; the canonicalised AllComparisonSeries output must equal a reference model computed from the set and be identical across orders; bootstrap summaries (50-5000 resamples) must be ordered, within the attainable ratio range and reproducible, also when recomputed under another processor count; all spellings of every instant must normalise identically and sort chronologically; " +
 		"non-trivial = at least 4 results and 2 orders; distinct = distinct canonical outputs",
 	Assumptions: []string{
 		"input invariants of real bent data (DESIGN.md A.4): series stamp <-> numerator hash one-to-one, denominator hash a function of the series stamp, distinct experiment instants, every stamp parses",
